@@ -158,7 +158,8 @@ class PrivateKey(EmbitKey):
         return self.get_public_key().sec()
 
     def xonly(self) -> bytes:
-        return self.sec()[1:]
+        # 32-byte X coordinate also when the key is uncompressed (65-byte sec)
+        return self.sec()[1:33]
 
     def taproot_tweak(self, h=b""):
         """Returns a tweaked private key"""
